@@ -550,6 +550,15 @@ func (g *genState) genMethod(idx int) Method {
 			m.Features = append(m.Features, "reverse")
 		}
 	}
+	// two error-returning converters on members of one nested destination struct (C07: nested call sites)
+	if g.opt.ErrorBias {
+		for _, f := range fields {
+			if f.Pair.Dst == "Inner2" && f.Pair.Src == "Inner1" && g.rng.Intn(2) == 0 {
+				m.Notations = append(m.Notations, ":conv localConvErr SpareInt "+f.Name+".B", ":conv localConvErr2 SpareInt "+f.Name+".C")
+				m.Features = append(m.Features, "nested-error-converters")
+			}
+		}
+	}
 	// explicit notations over the destination fields
 	for _, f := range fields {
 		if g.rng.Float64() >= g.opt.Explicit/2 {
